@@ -13,7 +13,8 @@ from typing import Any, Dict, List
 
 PROPERTY = "C06"
 TAUS = [1.0, 1e-3, 0.25, 0.5, 3.0, 1e3]
-FNS = ["identity", "double", "tanh", "square", "linear", "tanh_linear", "u_gelu", "zero", "inplace_double", "to_float32"]
+FNS = ["identity", "double", "tanh", "square", "linear", "tanh_linear", "u_gelu", "zero", "inplace_double", "to_float32",
+       "const", "detached", "nograd_branch"]
 SUB_TAUS = [0.25, 1.0, 3.0]
 SUB_FNS = ["double", "tanh", "linear"]
 SHAPES = [[], [3], [2, 3], [2, 1, 4]]
@@ -84,6 +85,8 @@ def cases(tier: str, seed: int) -> List[Dict[str, Any]]:
                     out.append({"forest": [[tau, fn, []], [tau, "double", [[tau, fn, []]]]], "shape": [2, 3], "mode": mode,
                                 "seed": seed, "grad_mode": gm})
             for pre in ("bfloat16", "float16", "float32"):
+                if tier == "quick" and (tau not in (0.5, None) or fn not in ("tanh", "linear")):
+                    continue  # (fresh-interpreter cases cost ~3 s each)
                 out.append({"forest": [[tau, fn, []]], "shape": [2, 3], "mode": "split_add", "seed": seed, "pre_dtype": pre, "fresh": True})
                 out.append({"forest": [[tau, fn, [[tau, "tanh", []]]]], "shape": [3], "mode": "apply", "seed": seed, "pre_dtype": pre, "fresh": True})
     for tau in (0.25, 1.0, 3.0, None):
@@ -92,6 +95,14 @@ def cases(tier: str, seed: int) -> List[Dict[str, Any]]:
                 out.append({"forest": [[tau, fn, []]], "shape": [2, 3], "mode": mode, "seed": seed, "grad_mode": "input_no_grad"})
                 out.append({"forest": [[tau, fn, []], [tau, "tanh", [[tau, fn, []]]]], "shape": [3], "mode": mode, "seed": seed,
                             "grad_mode": "input_no_grad"})
+    # the stream entering the layer does not require grad (raw data / frozen lower layers) while the branches
+    # hold trainable parameters: parameter gradients against the closed form
+    for tau in TAUS + [None]:
+        for fn in ("linear", "tanh_linear", "const"):
+            for mode in ("split_add", "apply"):
+                out.append({"forest": [[tau, fn, []]], "shape": [2, 3], "mode": mode, "seed": seed, "x_no_grad": True})
+                out.append({"forest": [[tau, fn, []], [tau, "tanh_linear", [[tau, fn, []]]]], "shape": [2, 3], "mode": mode, "seed": seed, "x_no_grad": True})
+                out.append({"forest": [[tau, "detached", []], [tau, fn, []]], "shape": [3], "mode": mode, "seed": seed, "x_no_grad": True})
     nmax = 3 if tier == "quick" else 4
     sub = list(itertools.product(SUB_TAUS, SUB_FNS))
     for n in range(2, nmax + 1):
@@ -118,15 +129,34 @@ def cases(tier: str, seed: int) -> List[Dict[str, Any]]:
     return out
 
 
-def _fn(name: str, d: int) -> Any:
+def _nograd(x: Any) -> Any:
+    import torch
+
+    with torch.no_grad():
+        return torch.tanh(x) + 0.5
+
+
+def _fn(name: str, d: int, store: Any = None) -> Any:
+    """branch function; trainable branch parameters (W of the linear kinds, the constant of `const`) are
+    appended to `store` so that their gradients can be compared between implementation and reference"""
     import torch
     import unit_scaling.functional as U
 
-    W = None
+    W = c = None
     if "linear" in name:
         g = torch.Generator().manual_seed(77 + d)
-        W = torch.randn(d, d, dtype=torch.float64, generator=g) / max(d, 1) ** 0.5
+        W = (torch.randn(d, d, dtype=torch.float64, generator=g) / max(d, 1) ** 0.5).requires_grad_(True)
+        if store is not None:
+            store.append(W)
+    if name == "const":
+        c = torch.tensor([0.75], dtype=torch.float64, requires_grad=True)
+        if store is not None:
+            store.append(c)
     return {
+        # branches whose output is NOT connected to their input through autograd
+        "const": lambda x: (c.sum() * 1.5).expand(x.shape).to(x.dtype),
+        "detached": lambda x: torch.tanh(x.detach()),
+        "nograd_branch": _nograd,
         "identity": lambda x: x * 1.0,
         "double": lambda x: 2 * x,
         "tanh": torch.tanh,
@@ -166,6 +196,8 @@ def run_case(case: Dict[str, Any]) -> Dict[str, Any]:
     gmode = case.get("grad_mode")
     if gmode:
         ident += f"|{gmode}"
+    if case.get("x_no_grad"):
+        ident += "|stream_without_grad"
     if case.get("pre_dtype"):
         ident += f"|after_{case['pre_dtype']}_call"
     steps = 0
@@ -175,9 +207,12 @@ def run_case(case: Dict[str, Any]) -> Dict[str, Any]:
         gout = torch.randn(shape, dtype=torch.float64, generator=g)
         pairs: List[Any] = []  # (grad at branch output, grad at add output) holders
 
+        store_i: List[Any] = []
+        store_r: List[Any] = []
+
         def impl(f: Any, x: Any) -> Any:
             for tau, fname, kids in f:
-                fn = _fn(fname, d)
+                fn = _fn(fname, d, store_i)
                 holder: Dict[str, Any] = {}
                 pairs.append(holder)
 
@@ -198,10 +233,16 @@ def run_case(case: Dict[str, Any]) -> Dict[str, Any]:
                 x = out
             return x
 
-        def ref(f: Any, x: Any) -> Any:
+        factors: List[float] = []  # per branch parameter: product of the enclosing branch weights tau/sqrt(1+tau^2)
+
+        def ref(f: Any, x: Any, wprod: float = 1.0) -> Any:
             for tau, fname, kids in f:
                 t = 1.0 if tau is None else tau
-                b = ref(kids, (x * 2.0) if fname == "inplace_double" else _fn(fname, d)(x))
+                w = wprod * t / (1 + t * t) ** 0.5
+                n0 = len(store_r)
+                fx = (x * 2.0) if fname == "inplace_double" else _fn(fname, d, store_r)(x)
+                factors.extend([w] * (len(store_r) - n0))
+                b = ref(kids, fx, w)
                 x = (x + t * b) / (1 + t * t) ** 0.5
             return x
 
@@ -245,15 +286,21 @@ def run_case(case: Dict[str, Any]) -> Dict[str, Any]:
                 break
             steps += count(forest)
             continue
-        xi = x0.clone().requires_grad_(True)
-        xr = x0.clone().requires_grad_(True)
+        xg = not case.get("x_no_grad")
+        xi = x0.clone().requires_grad_(xg)
+        xr = x0.clone().requires_grad_(xg)
+        store_i.clear()
+        store_r.clear()
+        factors.clear()
         try:
             yi = impl(forest, xi)
-            yi.backward(gout)
+            if yi.requires_grad:
+                yi.backward(gout)
         except Exception as e:  # noqa
             return {"violations": [exception_violation(e, ident)], "steps": 1, "outcome": "raises"}
         yr = ref(forest, xr)
-        yr.backward(gout)
+        if yr.requires_grad:
+            yr.backward(gout)
         steps += 2 * count(forest)
 
         def close(a: Any, b: Any) -> bool:
@@ -264,9 +311,18 @@ def run_case(case: Dict[str, Any]) -> Dict[str, Any]:
             viol.append({"key": ident + "|output_dtype", "msg": f"forest={forest}: {yi.dtype} vs {yr.dtype}"})
         elif yi.shape != yr.shape or not close(yi.detach(), yr.detach()):
             viol.append({"key": ident + "|forward_value", "msg": f"forest={forest} shape={shape}: max err {(yi.detach()-yr.detach()).abs().max().item():.3e}"})
-        if xi.grad is None or not close(xi.grad, xr.grad):
+        if xg and (xi.grad is None or not close(xi.grad, xr.grad)):
             err = float("nan") if xi.grad is None else (xi.grad - xr.grad).abs().max().item()
             viol.append({"key": ident + "|input_gradient", "msg": f"forest={forest} shape={shape}: max err {err:.3e}"})
+        # gradients of the parameters INSIDE the branches (the upstream gradient arrives unattenuated)
+        if len(store_i) != len(store_r):
+            viol.append({"key": ident + "|harness_parameter_mismatch", "msg": f"{len(store_i)} vs {len(store_r)}"})
+        for pi_, pr_, fac in zip(store_i, store_r, factors):
+            # inside a branch the gradient is the closed form's divided by the branch weights around it
+            if (pi_.grad is None) != (pr_.grad is None) or (pr_.grad is not None and not close(pi_.grad * fac, pr_.grad)):
+                err = float("nan") if pi_.grad is None or pr_.grad is None else (pi_.grad * fac - pr_.grad).abs().max().item()
+                viol.append({"key": ident + "|branch_parameter_gradient", "msg": f"forest={forest} shape={shape}: max err {err:.3e}"})
+                break
         for h in pairs:
             if mixed:
                 break
